@@ -18,7 +18,7 @@ func sanitizeSelectionSet(ctx *PlanningContext, selectionSet ast.SelectionSet, i
 
 				var addedFields []string
 				childSelectionSet, addedFields = addScrubFieldsToSelectionSet(ctx, childSelectionSet, s.Definition.Type.Name())
-				scrubFields = setMissingScrubFieldsForFieldSelectionSet(ctx, insertionPoint, s, scrubFields, addedFields)
+				scrubFields = setMissingScrubFieldsForFieldSelectionSet(ctx, insertionPoint, s, childSelectionSet, scrubFields, addedFields)
 
 				s.SelectionSet = childSelectionSet
 			}
@@ -113,11 +113,15 @@ func sanitizeInterfaceInlineFragment(ctx *PlanningContext, selectionSet ast.Sele
 	return selectionSet
 }
 
-func setMissingScrubFieldsForFieldSelectionSet(ctx *PlanningContext, insertionPoint []string, field *ast.Field, scrubFields ScrubFields, addedFields []string) ScrubFields {
+func setMissingScrubFieldsForFieldSelectionSet(ctx *PlanningContext, insertionPoint []string, field *ast.Field, selectionSet ast.SelectionSet, scrubFields ScrubFields, addedFields []string) ScrubFields {
 	for _, f := range addedFields {
 		path := append(insertionPoint, field.Alias)
 		if t := ctx.Schema.Types[field.Definition.Type.Name()]; t != nil && (t.Kind == ast.Interface || t.Kind == ast.Union) {
 			for _, pt := range ctx.Schema.PossibleTypes[t.Name] {
+				// objects of this type keep the field if the client selected it in the fragment on that type
+				if isFragmentOnTypeContainsField(selectionSet, pt.Name, f) {
+					continue
+				}
 				scrubFields.Set(path, pt.Name, f)
 			}
 		} else {
@@ -128,13 +132,24 @@ func setMissingScrubFieldsForFieldSelectionSet(ctx *PlanningContext, insertionPo
 	return scrubFields
 }
 
+// isFragmentOnTypeContainsField checks fragments on provided type for provided field
+func isFragmentOnTypeContainsField(selectionSet ast.SelectionSet, typename, fieldname string) bool {
+	for _, selection := range selectionSet {
+		if frag, ok := selection.(*ast.InlineFragment); ok && frag.TypeCondition == typename && isContainsField(frag.SelectionSet, fieldname) {
+			return true
+		}
+	}
+	return false
+}
+
 func addScrubFieldsToSelectionSet(ctx *PlanningContext, selectionSet ast.SelectionSet, fieldname string) (ast.SelectionSet, []string) {
 	var addedFields []string
 	var isImplementsNode bool
 
 	if t := ctx.Schema.Types[fieldname]; t != nil && (t.Kind == ast.Interface || t.Kind == ast.Union) {
 		pt := ctx.Schema.PossibleTypes[fieldname]
-		if !isContainsField(selectionSet, common.TypenameFieldName) {
+		// a __typename selected inside a fragment covers the objects of that fragment's type only
+		if !selectionSetHasFieldNamed(selectionSet, common.TypenameFieldName) {
 			selectionSet = addTypenameFieldToSelectionSet(selectionSet)
 			addedFields = append(addedFields, common.TypenameFieldName)
 		}
